@@ -25,7 +25,7 @@ def main():
     res = {}
     rc, diff = sh("git -C %s diff" % wt)
     res["worktree_diff_equals_patch"] = diff.strip() == open(out + "/patch.diff").read().strip()
-    rc, _ = sh("PYTHONPATH=/repo /venv/bin/python %s/demo.py" % out)
+    rc, _ = sh("PYTHONDONTWRITEBYTECODE=1 PYTHONPATH=/repo /venv/bin/python %s/demo.py" % out)
     res["demo_on_unmodified_repo_exit"] = rc
     rc, _ = sh("PYTHONPATH=%s /venv/bin/python %s/demo.py" % (wt, out))
     res["demo_on_patched_exit"] = rc
